@@ -18,6 +18,10 @@ Times are integers in quarter time units.  A hook is a one-shot listener of the 
 construct_model to the simulator's WARMUP / END_REPLICATION event (or to a channel of the model's producer)
 right before statistic number pos is created (pos = number of statistics: after all of them); inside its
 first notification it unsubscribes the hook `removes` (itself, or another one) from that hook's event.
+        "ghosts": [{"pos": k, "kind": kind, "how": "name"|"key"|"sim"}, ...]   constructions the constructor must
+            refuse (name / key not a str, simulator not a simulator), attempted -- and the TypeError caught -- right
+            before statistic number pos is created: nothing of the refused object may stay behind
+        "model_variant": "plain"|"len0"|"boolfalse"   the model class also defines __len__ -> 0 / __bool__ -> False
 """
 import io
 import json
@@ -336,8 +340,23 @@ def run_case(case, name):
                         hooks[hi] = hk
                         hk.producer.add_listener(hk.et, hk)
 
+            def add_ghosts(pos):
+                for gi, g in enumerate(case.get("ghosts") or []):
+                    if g["pos"] != pos:
+                        continue
+                    gcls = {"counter": ST.SimCounter, "tally": ST.SimTally, "weighted": ST.SimWeightedTally,
+                            "persistent": ST.SimPersistent}[g["kind"]]
+                    args = {"name": (f"kghost{gi}", 12345, sim), "key": (777, f"ghost {gi}", sim),
+                            "sim": (f"kghost{gi}", f"ghost {gi}", "not a simulator")}[g["how"]]
+                    try:
+                        gcls(*args)
+                        rec["notes"].append(f"construction of a {g['kind']} with a bad {g['how']} was not refused")
+                    except TypeError:
+                        pass
+
             for sid, d in enumerate(sdecls):
                 add_hooks(sid)
+                add_ghosts(sid)
                 kind = d["kind"]
                 cls = {"counter": ST.SimCounter, "tally": ST.SimTally, "weighted": ST.SimWeightedTally,
                        "persistent": ST.SimPersistent}[kind]
@@ -359,6 +378,7 @@ def run_case(case, name):
                 self.stat_objs.append(o)
                 self.subs.append(sub)
             add_hooks(len(sdecls))
+            add_ghosts(len(sdecls))
             for hi, h in enumerate(hdecls):
                 if hooks[hi] is not None and 0 <= h["removes"] < len(hooks):
                     hooks[hi].target = hooks[h["removes"]]
@@ -414,7 +434,19 @@ def run_case(case, name):
                 else:
                     raise ValueError(kind)
 
-    model = ProgModel(sim)
+    variant = case.get("model_variant") or "plain"
+    if variant == "len0":
+        class LenModel(ProgModel):
+            def __len__(self):          # a model that is a (still empty) container
+                return 0
+        model = LenModel(sim)
+    elif variant == "boolfalse":
+        class FalsyModel(ProgModel):
+            def __bool__(self):
+                return False
+        model = FalsyModel(sim)
+    else:
+        model = ProgModel(sim)
     subscribe()
 
     def wait_quiet():
